@@ -76,6 +76,7 @@ void run(const char *what, const System &S, const typename Solver::params &prm, 
     bool ok = (!std::isfinite(resid) && !std::isfinite(t)) || std::fabs(resid - t) <= 1e-8 * std::max(1.0, t);
     std::cout << what << ": iters=" << iters << " reported=" << resid << " true=" << t << (ok ? "" : "   <-- MISMATCH") << std::endl;
     if (!ok) ++bad;
+    if (iters > (size_t)prm.maxiter) { std::cout << what << ": iteration count " << iters << " exceeds the budget maxiter = " << prm.maxiter << "   <-- MISMATCH" << std::endl; ++bad; }
 }
 
 template <class Solver>
